@@ -12,36 +12,72 @@ theorem objective_expand (m : Mapping Rat) (hm : ProperMapping m) (x y : Nat →
       + 2 * Num.sum ((seriesOf m).map (fun s => (y s - x s) * residualSum m x s))
       + objective (m.map (fun hl => (hl.1, hl.2.map (fun st => (st.1, (0 : Rat))))))
           (fun s => y s - x s) := by
-  sorry
+  have _ := hm
+  exact LS.objective_expand_num m x y
 
 /-- Vanishing residual sums ⇒ global minimiser, over *all* competing offset vectors. -/
 theorem stationary_is_minimiser (m : Mapping Rat) (hm : ProperMapping m) (x : Nat → Rat)
     (h : Stationary m x) (y : Nat → Rat) : objective m x ≤ objective m y := by
-  sorry
+  have _ := hm
+  exact LS.stationary_le m x h y
 
 /-- Conversely a minimiser has vanishing residual sums for every interval. -/
 theorem minimiser_is_stationary (m : Mapping Rat) (hm : ProperMapping m) (x : Nat → Rat)
     (h : ∀ y, objective m x ≤ objective m y) : Stationary m x := by
-  sorry
+  have _ := hm
+  exact LS.minimiser_stationary m x h
 
 /-- The minimiser is unique up to a common shift of all intervals. -/
 theorem minimiser_unique_mod_shift (m : Mapping Rat) (hm : ProperMapping m) (hc : Connected m)
     (x y : Nat → Rat) (hx : Stationary m x) (hy : Stationary m y) :
     ∃ c, ∀ s ∈ seriesOf m, y s = x s + c := by
-  sorry
+  have _ := hm
+  exact LS.unique_mod_shift m hc x y hx hy
 
 /-- What the model's solver returns has vanishing residual sums (it is checked before being
     returned) and pins one series to zero. -/
 theorem solveOffsets_stationary (m : Mapping Rat) (sol : List (Nat × Rat))
     (h : solveOffsets m = .ok sol) :
-    Stationary m (lookup sol) ∧ ∃ r ∈ seriesOf m, lookup sol r = 0 := by
-  sorry
+    Stationary m (lookup sol) ∧ ∃ r ∈ seriesOf m, lookup sol r = 0 :=
+  LS.solveOffsets_ok m sol h
 
 /-- Levels crossed by a single interval carry no information: dropping them changes neither the
     residual sums nor differences of the objective. -/
 theorem singleton_levels_irrelevant (m : Mapping Rat) (x : Nat → Rat) (s : Nat) :
     residualSum (dropSingletons m) x s = residualSum m x s ∧
-    objective (dropSingletons m) x = objective m x := by
-  sorry
+    objective (dropSingletons m) x = objective m x :=
+  LS.singletons m x s
+
+/-! Non-vacuity: three series chained over three levels; the mapping is proper and connected,
+    and the solver returns checked offsets that are not all zero. -/
+
+def exChain : Mapping Rat :=
+  [(0, [(0, 0), (1, 2)]), (1, [(1, 3), (2, 2)]), (2, [(1, 6), (2, 5)])]
+
+example : ProperMapping exChain := by
+  intro hl h
+  simp only [exChain, List.mem_cons, List.not_mem_nil, or_false] at h
+  rcases h with rfl | rfl | rfl <;> decide
+
+example : seriesOf exChain = [0, 1, 2] := by decide +kernel
+
+example : Connected exChain := by
+  have h01 : Shares exChain 0 1 := ⟨(0, [(0, 0), (1, 2)]), by simp [exChain], by decide, by decide⟩
+  have h12 : Shares exChain 1 2 := ⟨(1, [(1, 3), (2, 2)]), by simp [exChain], by decide, by decide⟩
+  apply LS.connected_of_hub exChain 0
+  intro s hs
+  have hs' : s ∈ [0, 1, 2] := by
+    have : seriesOf exChain = [0, 1, 2] := by decide +kernel
+    rw [← this]; exact hs
+  simp only [List.mem_cons, List.not_mem_nil, or_false] at hs'
+  rcases hs' with rfl | rfl | rfl
+  · exact Relation.ReflTransGen.refl
+  · exact Relation.ReflTransGen.single h01
+  · exact (Relation.ReflTransGen.single h01).tail h12
+
+example : solveOffsets exChain = .ok [(0, 1), (1, -1), (2, 0)] := by decide +kernel
+
+example : ∃ sol, solveOffsets exChain = .ok sol ∧ lookup sol 0 ≠ 0 :=
+  ⟨[(0, 1), (1, -1), (2, 0)], by decide +kernel, by decide +kernel⟩
 
 end Spowtd
